@@ -362,9 +362,13 @@ def main(ctx):
         fields, shape = u
         names = [f[0] for f in fields]
         # case sensitivity: the upper-cased first name is a missing name too
-        cands = [names + [MISSING], names + [names[0].upper()]]
+        # ... and so are a real name with one more character, and the longest name extended (a name table of fixed
+        # width would truncate both to an existing name)
+        longest = max(names, key=len)
+        cands = [names + [MISSING], names + [names[0].upper()], names + [longest + "z"], names + [names[-1] + "_err"]]
         seen = set()
         for cand in cands:
+            cand = list(dict.fromkeys(cand))     # a candidate list never names the same field twice
             for sel in selections(cand, NSEL):
                 if sel in seen:
                     continue
@@ -385,10 +389,13 @@ def main(ctx):
     # the byte-swapped alphabet: only arrays that contain a field with a byte order
     KSW = ctx.pick(2, 3)
     swapped_units = [u for u in base_units(FSWAP, KSW, KSW) if any(f not in F for f in u[0])]
-    ctx.lattice("select", base_units(F7, KQ, ctx.pick(2, 4)) + swapped_units, one_select, expand=expand_select,
+    # arrays holding two fields whose names differ only in case ('x' / 'X'): each is its own field
+    FX, FXU, FS = ("x", ">f8", ()), ("X", "<i4", ()), ("s", "S3", ())
+    case_units = [(fl, sh) for fl in ((FX, FXU), (FXU, FX), (FX, FS, FXU), (FXU, FS, FX), (FS, FXU, FX)) for sh in MAIN_SHAPES]
+    ctx.lattice("select", base_units(F7, KQ, ctx.pick(2, 4)) + swapped_units + case_units, one_select, expand=expand_select,
                 bounds=dict(alphabet=F7, max_fields=KQ, swapped_alphabet=FSWAP, max_fields_swapped=KSW,
                             max_names=NSEL, shapes=MAIN_SHAPES,
-                            small_shapes=SMALL_SHAPES, missing=[MISSING, "<first name upper-cased>"],
+                            small_shapes=SMALL_SHAPES, missing=[MISSING, "<first name upper-cased>", "<longest name>+z", "<last name>_err"],
                             containers=["scalar", "list", "tuple", "array"],
                             ops=["extract_fields", "reorder_fields", "remove_fields", "split_fields"]))
 
@@ -681,7 +688,22 @@ def main(ctx):
                 a2[n] = d
         if FOREIGN[0] in names2:
             a2[FOREIGN[0]] = 1.5
-        if perturb is not None:
+        nan_first = False
+        if perturb is not None and len(perturb) == 3:
+            # the difference is "NaN in the FIRST array where the second holds a number" (and the reverse)
+            fi, ei, which = perturb
+            n, b, s, d = m1[fi]
+            if which == "nan-in-first":
+                flat = a1[n].reshape(-1).copy()
+                flat[ei] = np.nan
+                a1[n] = flat.reshape(a1[n].shape)
+                nan_first = True
+            else:
+                flat = a2[n].reshape(-1).copy()
+                flat[ei] = np.nan
+                a2[n] = flat.reshape(a2[n].shape)
+            perturb = (fi, ei, which)
+        elif perturb is not None:
             fi, ei = perturb
             n, b, s, d = m1[fi]
             d2 = d.copy().reshape(-1)
@@ -705,7 +727,7 @@ def main(ctx):
         if bool(got) is not expect or not isinstance(got, (bool, np.bool_)):
             return rec.fail(case, "compare_arrays (%s, %s): returned %r, field-by-field answer is %r"
                             % (variant, DIMWORD[len(shape)], got, expect))
-        if not unchanged(a1, m1):
+        if not nan_first and not unchanged(a1, m1):
             return rec.fail(case, "compare_arrays: the first array was modified")
         rec.ok(case, outcome="compare:%s:%s:%s" % (variant, "perturbed" if perturb else "equal-data", expect),
                nontrivial=(perturb is not None or variant != "same"))
@@ -736,6 +758,8 @@ def main(ctx):
                 for d in s:
                     ne *= d
                 perturbs.extend((fi, ei) for ei in range(ne))
+                if np.dtype(b).kind in "fc" and variant in ("same", "reversed") and ne > 0:
+                    perturbs.extend((fi, 0, w) for w in ("nan-in-first", "nan-in-second"))
             for p in perturbs:
                 for im in (True, False):
                     yield ("compare", fields, shape, cseed, variant, p, im)
